@@ -36,16 +36,16 @@ NOTAB = frozenset("\t\n\r")
 class GhostSeq(object):
     _pyvc_model = True
 
-    def __init__(self, chrom, sl, ops=()):
-        self.chrom, self.sl, self.ops = chrom, sl, tuple(ops)
+    def __init__(self, chrom, sl, ops=(), src=None):
+        self.chrom, self.sl, self.ops, self.src = chrom, sl, tuple(ops), src          # src: the opened file it was read from
 
     @property
     def reverse(self):
-        return GhostSeq(self.chrom, self.sl, self.ops + ("reverse",))
+        return GhostSeq(self.chrom, self.sl, self.ops + ("reverse",), self.src)
 
     @property
     def complement(self):
-        return GhostSeq(self.chrom, self.sl, self.ops + ("complement",))
+        return GhostSeq(self.chrom, self.sl, self.ops + ("complement",), self.src)
 
     @property
     def seq(self):
@@ -55,11 +55,11 @@ class GhostSeq(object):
 class GhostChrom(object):
     _pyvc_model = True
 
-    def __init__(self, chrom):
-        self.chrom = chrom
+    def __init__(self, chrom, src=None):
+        self.chrom, self.src = chrom, src
 
     def __getitem__(self, sl):
-        return GhostSeq(self.chrom, sl)
+        return GhostSeq(self.chrom, sl, (), self.src)
 
 
 class GhostFasta(object):
@@ -69,12 +69,12 @@ class GhostFasta(object):
     _pyvc_model = True
 
     def __getitem__(self, chrom):
-        return GhostChrom(chrom)
+        return GhostChrom(chrom, self)
 
     def get_seq(self, chrom, start, end, rc=False):
         from pyvc.core import Ctx
         lo = SInt(start.e - 1) if isinstance(start, SInt) else start - 1
-        g = GhostSeq(chrom, slice(lo if isinstance(lo, SInt) else SInt(z3.IntVal(lo)), end if isinstance(end, SInt) else SInt(z3.IntVal(end)), None))
+        g = GhostSeq(chrom, slice(lo if isinstance(lo, SInt) else SInt(z3.IntVal(lo)), end if isinstance(end, SInt) else SInt(z3.IntVal(end)), None), (), self)
         if isinstance(rc, SBool):
             rc = Ctx.current.branch(rc.e, "get_seq-rc")
         return g.reverse.complement if rc else g
@@ -151,6 +151,52 @@ def unit_len_sequence(U):
             U.prove("C18.sequence[use_strand=%s]#p%d" % (use_strand, p.index),
                     "sequence == slice [start-1 : end] of fasta[seqid] (length == len(feature) inside the reference), reverse-complemented iff use_strand and strand == '-'",
                     p.pc, goal, dict(vars_, strand=strand), replay=replay)
+
+
+def unit_sequence_filename(U):
+    """a FASTA given by file NAME is opened by the call that uses it: two sequence(path) calls open the path twice (through
+    pyfaidx.Fasta, contract A-F) and slice what they opened - so the bases returned are those of the file named at the time
+    of the call, also when an earlier call named the same path"""
+    it = Interp()
+    s, e = z3.Int("start"), z3.Int("end")
+
+    def fasta_contract(interp, a, k):
+        g = GhostFasta()
+        Ctx.current.effect("fasta-open", a[0] if a else k.get("filename"), g)
+        return g
+    it.contracts[F.Fasta] = fasta_contract
+
+    def run(ctx):
+        f = blank_feature(start=SInt(s), end=SInt(e), strand="+", seqid="c1")
+        r1 = it.call(F.Feature.sequence, [f, "ref.fa"], {})
+        r2 = it.call(F.Feature.sequence, [f, "ref.fa"], {})
+        return r1, r2
+
+    def replay(m):
+        import tempfile, os, shutil
+        d = tempfile.mkdtemp()
+        try:
+            fa = os.path.join(d, "genome.fa")
+            f = F.Feature(seqid="c1", start=3, end=9, strand="+")
+            out, exp = [], []
+            for seq in ("ACGTTGCAAGGCTTAACC", "TTTTTTTTTTTTGGGGGGGGGGGGGG", "CCGG" * 3):
+                for x in (fa, fa + ".fai"):
+                    if os.path.exists(x):
+                        os.remove(x)
+                open(fa, "w").write(">c1\n%s\n" % seq)
+                out.append(f.sequence(fa))
+                exp.append(seq[2:9])
+            return {"inputs": "sequence(path) / replace the file at that path (and its .fai) / sequence(path) again, three references", "expected": exp, "observed": out, "violates": out != exp}
+        finally:
+            shutil.rmtree(d, ignore_errors=True)
+    for p in U.explore(run, it):
+        ok = p.kind == "return"
+        if ok:
+            opens = [x for x in p.ctx.effects if x[0] == "fasta-open"]
+            r1, r2 = p.value
+            ok = (len(opens) == 2 and all(x[1] == "ref.fa" for x in opens) and isinstance(r1, tuple) and isinstance(r2, tuple) and r1[0] == "seq" and r2[0] == "seq"
+                  and r1[1].src is opens[0][2] and r2[1].src is opens[1][2])
+        U.prove("C18.sequence.filename.reopened#p%d" % p.index, "each sequence(<file name>) call opens that file itself and reads from what it opened (nothing kept from an earlier call)", [], z3.BoolVal(bool(ok)), {}, replay=replay)
 
 
 def _blocks(name):
@@ -460,7 +506,7 @@ def unit_bounded_two_levels(U):
                      "1-3 exons x both strands, exons with Parent=<transcript>,<locus>; bed12 of the locus and of the transcript", cases, fails, distinct=cases)
 
 
-UNITS = [("len_sequence", unit_len_sequence), ("bed12", unit_bed12), ("to_bed12", unit_to_bed12), ("bounded.two_levels", unit_bounded_two_levels)]
+UNITS = [("len_sequence", unit_len_sequence), ("sequence.filename", unit_sequence_filename), ("bed12", unit_bed12), ("to_bed12", unit_to_bed12), ("bounded.two_levels", unit_bounded_two_levels)]
 try:
     from standins import C18 as _S
     UNITS = UNITS + list(_S.UNITS)
